@@ -30,7 +30,13 @@ def main():
     try:
         rc, out = sh(["git", "-C", "/repo", "worktree", "add", "-q", "--detach", wt, "HEAD"])
         assert rc == 0, out
-        shutil.copy(os.path.join(src, "demo.py"), os.path.join(wt, "demo_seed.py"))
+        # demos often assert that antismash resolves inside the seed agent's own worktree: point them at this one
+        with open(os.path.join(src, "demo.py"), encoding="utf-8") as handle:
+            demo_text = handle.read()
+        for original in {os.path.abspath(src), os.path.abspath(src).replace("_ported", "")}:
+            demo_text = demo_text.replace(original, wt)
+        with open(os.path.join(wt, "demo_seed.py"), "w", encoding="utf-8") as handle:
+            handle.write(demo_text)
         rc_clean, out_clean = sh(["/venv/bin/python", "demo_seed.py"], cwd=wt)
         rc, out = sh(["git", "apply", "--exclude=demo.py", "--exclude=patch.diff", "--exclude=meta.json", patch], cwd=wt)
         result["patch_applies_to_head"] = rc == 0
